@@ -169,6 +169,19 @@ def run(tier, seed, n=None, nproc=16):
     rng = rng_for(seed, "frame")
     frames = [gen_frame(rng) for _ in range(n)]
     frames.append({"labels": [], "cols": [], "nrows": 3, "index": "str"})
+    # long frames (>= 1000 rows): a sampling shortcut in the frame path would make these differ from the per-Series results
+    for k in range(2 if tier == "quick" else 12):
+        nrows = rng.choice([1000, 1500, 3000])
+        c1 = [["str", "%d.5" % (i % 40)] for i in range(nrows)]
+        c1[rng.randrange(nrows)] = ["str", "1+2j"]
+        c2 = [["none"]] * nrows
+        for _ in range(rng.choice([1, 2])):
+            c2[rng.randrange(nrows)] = ["str", "some text"]
+        c3 = [["float", float(i % 7)] for i in range(nrows)]
+        c3[rng.randrange(nrows)] = ["float", 0.5]
+        frames.append({"labels": ["f", "sparse", "almost-int"], "nrows": nrows, "index": "default",
+                       "cols": [{"values": c1, "dtype": "object", "index": "default"}, {"values": c2, "dtype": "object", "index": "default"},
+                                {"values": c3, "dtype": "float64", "index": "default"}]})
     frames.append({"labels": ["g"], "cols": [{"values": [["str", "POINT (1 2)"], ["str", "POINT (3 4)"]], "dtype": "object", "index": "default"}],
                    "nrows": 2, "index": "str"})
     outs = []
